@@ -1262,9 +1262,20 @@ def gen_don(ctx, rng):
     # 1-3 conditions share ONE DeepONet and ONE function set (equation + boundary/initial conditions); every
     # training iteration evaluates all of them, in an order that changes from iteration to iteration
     nconds = rng.choice([1, 1, 2, 2, 3])
-    if nconds > 1:
+    # how the conditions are called: with the training iteration number (Solver.training_step), directly
+    # (`cond()` / validation step: iteration=None), or a mixture; the function set resamples exactly when the
+    # key it is called with differs from the key of the previous call
+    mode = rng.choice(["train"] * 5 + ["direct"] * 3 + ["mixed"] * 2)
+    if nconds > 1 or mode != "train":
         calls = rng.choice([2, 3])
-        psets = [gen_rows(rng, F_, dim_of(pspace)) for _ in range(calls + 1)]
+    if mode == "train":
+        keys = list(range(calls))
+    elif mode == "direct":
+        keys = [None] * calls
+    else:
+        calls = rng.choice([3, 4])
+        keys = [rng.choice([None, 0, 1]) for _ in range(calls)]
+    psets = [gen_rows(rng, F_, dim_of(pspace)) for _ in range(calls + 1)]
     subs = [sub(True)] + [sub(False) for _ in range(nconds - 1)]
     steps = []
     for k in range(calls):
@@ -1272,8 +1283,20 @@ def gen_don(ctx, rng):
         rng.shuffle(order)
         steps += [[k, j] for j in order]
     return dict(kind="don", sv=sv, xspace=xspace, trunk_in=trunk_in, pspace=pspace, fout=fout, fn=fn, out=out_space,
-                nk=nk, zs=zs, W=W, feats=feats, F=F_, calls=calls, psets=psets, subs=subs, steps=steps,
-                startup=gen_startup(rng, 0.3, 0.0))
+                nk=nk, zs=zs, W=W, feats=feats, F=F_, calls=calls, psets=psets, subs=subs, steps=steps, keys=keys,
+                mode=mode, startup=gen_startup(rng, 0.3, 0.0))
+
+
+def don_batches(case, steps=None):
+    """the function-set rule: a call resamples iff its iteration key differs from the key of the previous call
+    (initially -1); returns for every step the number of the function batch in force, and the number of draws"""
+    cur, draws, out = -1, 0, []
+    keys = case.get("keys") or list(range(case["calls"]))
+    for k, j in (steps if steps is not None else case["steps"]):
+        if keys[k] != cur or (keys[k] is None) != (cur is None):
+            cur, draws = keys[k], draws + 1
+        out.append(draws - 1)
+    return out, draws
 
 
 def don_net(case):
@@ -1346,7 +1369,7 @@ def run_don(case, only=None):
         b, n_obs = len(rec.calls), len(obs.resid_args)
         st = dict(k=k, j=j, loss=None, error=None, args=None, out=None, pp=None)
         try:
-            st["loss"] = float(cond.forward(iteration=k))
+            st["loss"] = float(cond.forward(iteration=(case.get("keys") or list(range(case["calls"])))[k]))
         except Exception as e:  # noqa
             st["error"] = classify_exc(e)
             out["errors"].append((f"iteration {k} condition {j}", st["error"]))
@@ -1355,8 +1378,10 @@ def run_don(case, only=None):
             st["pp"] = cc.points_record(fset.param_batch)          # the input functions currently in the branch net
         if len(obs.resid_args) > n_obs:
             st["args"], st["out"] = obs.resid_args[-1], obs.resid_out[-1]
+        st["batch"] = len(rec_p.calls)           # number of function batches drawn so far
         out["steps"].append(st)
     out["param_draws"] = len(rec_p.calls)
+    out["ran_steps"] = [[k, j] for k, j in case["steps"] if conds[j] is not None]
     return out
 
 
@@ -1398,8 +1423,20 @@ def judge_don(rep, case, res, replies):
         for where, what in res["errors"]:
             rep.fail(f"PIDeepONetCondition raised at {where}: {what}", case)
         return
-    if res["param_draws"] != case["calls"]:
-        rep.fail(f"the shared function set drew new functions {res['param_draws']} times in {case['calls']} iterations", case)
+    rep.count("don:calls=" + case.get("mode", "train"))
+    batch_of, want_draws = don_batches(case, res.get("ran_steps"))
+    if res["param_draws"] != want_draws:
+        rep.fail(f"the shared function set drew new functions {res['param_draws']} times; called with the iteration keys "
+                 f"{[(case.get('keys') or list(range(case['calls'])))[k] for k, _ in res.get('ran_steps', case['steps'])]} it must draw "
+                 f"{want_draws} times (once per change of the key)", case)
+    # repeatability: same condition, static input sampler, same function batch in force => same loss
+    seen_loss = {}
+    for st, b in zip(res["steps"], batch_of):
+        if case["subs"][st["j"]]["static"] and st["loss"] is not None:
+            prev = seen_loss.setdefault((st["j"], b), st["loss"])
+            if prev != st["loss"]:
+                rep.fail(f"PIDeepONetCondition {st['j']} (static input sampler) returned {prev!r} and then {st['loss']!r} although no new "
+                         f"input functions were due in between (iteration keys {case.get('keys')})", case)
     net = don_net(case)
     body = [pe_from_json(b) for b in net["body"]]
     first_of_iter = {}
